@@ -11000,10 +11000,15 @@ tsk_table_collection_check_tree_integrity(const tsk_table_collection_t *self)
     }
     tsk_bug_assert(j == num_edges);
     while (k < num_edges) {
-        /* At this point it must be that used_edges[O[k]] == 1,
-         * since otherwise we would have added a different edge twice,
-         * and so hit the error above. */
+        /* Every edge has been inserted exactly once at this point, so each
+         * remaining entry of the removal order must name an edge that has not
+         * been removed yet: a removal order that lists an edge twice (and so
+         * leaves another one out) is not an index of these edges. */
         e = O[k];
+        if (used_edges[e] != 1) {
+            ret = tsk_trace_error(TSK_ERR_TABLES_BAD_INDEXES);
+            goto out;
+        }
         if (edge_right[e] != sequence_length) {
             ret = tsk_trace_error(TSK_ERR_TABLES_BAD_INDEXES);
             goto out;
